@@ -849,7 +849,9 @@ impl Harness {
         });
         let dir = self.root.join("evidence");
         let _ = std::fs::create_dir_all(&dir);
-        let path = dir.join(format!("{}.json", self.id));
+        // a stage that re-runs the binary under another executor (Miri) writes its own file and leaves the main one alone
+        let suffix = std::env::var("PV_EVIDENCE_SUFFIX").unwrap_or_default();
+        let path = dir.join(format!("{}{}.json", self.id, suffix));
         std::fs::write(&path, serde_json::to_string_pretty(&ev).unwrap()).expect("write evidence");
     }
 
